@@ -556,7 +556,13 @@ class DeepCopyMethod(MethodDescriptor):
                 new.__dict__[attr] = protect_via_deepcopy(value, memo)
         __post_copy__ = getattr(new, "__post_copy__", None)
         if __post_copy__:
-            __post_copy__()
+            # Like `__post_init__`, this hook completes the new instance, and
+            # so may write to it even if the class is frozen.
+            new.__dict__["__spec_class_initializing__"] = True
+            try:
+                __post_copy__()
+            finally:
+                new.__dict__.pop("__spec_class_initializing__", None)
         return new
 
     def build_method(self) -> Callable:
